@@ -14,3 +14,9 @@ package cidprimary
 
 //@ func (cp *CIDPrimary) flushBlock(key []byte, value []byte) (work types.Work, err error)  property C16
 //@   holds cp.flushLock
+
+//@ func Open(path string) (cp *CIDPrimary, err error)
+//@   trusted constructor: opens the single primary file
+//@   fresh cp
+//@   ensures err == nil ==> cp != nil && !as(primary.PrimaryStorage, cp).$pending && !as(primary.PrimaryStorage, cp).$closed
+//@   ensures err != nil ==> cp == nil
